@@ -42,14 +42,15 @@ type Violation struct {
 
 // Stats the controller accumulates.
 type Stats struct {
-	Regions      int
-	DrivenSteps  int
-	Releases     int
-	Preemptions  int // releases of a worker different from the previous one while the previous one was still runnable
-	MaxWorkers   int
-	SingleSteps  int // steps seen outside any parallel region
-	ScheduleHash uint64
-	RegionShapes map[string]int
+	Regions         int
+	DrivenSteps     int
+	Releases        int
+	Preemptions     int // releases of a worker different from the previous one while the previous one was still runnable
+	MaxWorkers      int
+	SingleSteps     int // steps seen outside any parallel region
+	BudgetExhausted int // driven regions that were finished free-running after MaxDriven releases
+	ScheduleHash    uint64
+	RegionShapes    map[string]int
 }
 
 type iv struct{ row, s, e int }
@@ -105,11 +106,14 @@ type Controller struct {
 	Trace     []int
 	TraceKeep int
 	Grace     time.Duration
+	// MaxDriven bounds the releases of one driven region; beyond it the
+	// rest of the region runs freely (count-based, hence deterministic).
+	MaxDriven int
 }
 
 // New installs a controller into rsec16 and returns it.
 func New() *Controller {
-	c := &Controller{Grace: 30 * time.Second, TraceKeep: 4096}
+	c := &Controller{Grace: 30 * time.Second, TraceKeep: 4096, MaxDriven: 150000}
 	c.Stats.RegionShapes = map[string]int{}
 	c.Stats.ScheduleHash = 1469598103934665603
 	rsec16.SetVerifHooks(&rsec16.VerifHooks{
@@ -420,7 +424,7 @@ func (c *Controller) drive(r *region) {
 			}
 		case <-timeout.C:
 			c.violate("worker-count", "only %d of %d announced workers started within %v", entered, r.n, c.Grace)
-			c.freeRun(r, parked)
+			c.freeRun(r, parked, entered-exited)
 			return
 		}
 	}
@@ -429,14 +433,14 @@ func (c *Controller) drive(r *region) {
 	case <-r.joinCh:
 	case <-timeout.C:
 		c.violate("hang", "parent did not reach the join within %v", c.Grace)
-		c.freeRun(r, parked)
+		c.freeRun(r, parked, entered-exited)
 		return
 	}
 	deadline := time.Now().Add(c.Grace)
 	for {
 		if atomic.LoadInt32(&r.joined) != 0 {
 			c.violate("joined-early", "parent passed the join while all %d workers were still parked at their first yield point", len(parked))
-			c.freeRun(r, parked)
+			c.freeRun(r, parked, entered-exited)
 			return
 		}
 		if parentBlocked(r.parent) {
@@ -444,17 +448,26 @@ func (c *Controller) drive(r *region) {
 		}
 		if time.Now().After(deadline) {
 			c.violate("hang", "parent neither blocked in the join nor passed it within %v", c.Grace)
-			c.freeRun(r, parked)
+			c.freeRun(r, parked, entered-exited)
 			return
 		}
 		runtime.Gosched()
 	}
 	// 3. release one worker at a time
 	last := -1
+	released := 0
 	for len(parked) > 0 {
+		released++
+		if c.MaxDriven > 0 && released > c.MaxDriven {
+			c.mu.Lock()
+			c.Stats.BudgetExhausted++
+			c.mu.Unlock()
+			c.freeRun(r, parked, entered-exited)
+			return
+		}
 		if atomic.LoadInt32(&r.joined) != 0 {
 			c.violate("joined-early", "parent passed the join with %d workers still parked", len(parked))
-			c.freeRun(r, parked)
+			c.freeRun(r, parked, entered-exited)
 			return
 		}
 		runnable := make([]int, 0, len(parked))
@@ -495,6 +508,7 @@ func (c *Controller) drive(r *region) {
 			switch ev.kind {
 			case 0:
 				// a late extra worker
+				entered++
 				parked[ev.w] = true
 				// still need the event of the released worker
 				ev2 := <-r.events
@@ -511,34 +525,35 @@ func (c *Controller) drive(r *region) {
 			}
 		case <-time.After(c.Grace):
 			c.violate("hang", "worker %d did not reach its next yield point within %v", w.idx, c.Grace)
-			c.freeRun(r, parked)
+			c.freeRun(r, parked, entered-exited)
 			return
 		}
 	}
 }
 
-// freeRun releases everything that is parked and keeps releasing until
-// the region is over (used after a violation so goroutines do not leak).
-func (c *Controller) freeRun(r *region, parked map[*worker]bool) {
+// freeRun releases everything that is parked and keeps answering yield
+// points until every worker that entered has exited (used after a
+// violation, and when a region's drive budget is exhausted, so that no
+// goroutine is left parked). live is the number of workers that have
+// entered and not yet exited.
+func (c *Controller) freeRun(r *region, parked map[*worker]bool, live int) {
 	for w := range parked {
 		w.resume <- struct{}{}
 	}
-	idle := time.NewTimer(c.Grace)
-	defer idle.Stop()
-	for {
+	for live > 0 {
 		select {
 		case ev := <-r.events:
-			if ev.kind != 2 {
+			switch ev.kind {
+			case 0:
+				live++
 				ev.w.resume <- struct{}{}
+			case 1:
+				ev.w.resume <- struct{}{}
+			case 2:
+				live--
 			}
-			if !idle.Stop() {
-				select {
-				case <-idle.C:
-				default:
-				}
-			}
-			idle.Reset(50 * time.Millisecond)
-		case <-idle.C:
+		case <-time.After(c.Grace):
+			c.violate("hang", "%d workers neither reached a yield point nor exited within %v while the region was finished free-running", live, c.Grace)
 			return
 		}
 	}
